@@ -183,10 +183,41 @@ func Strip(v ssa.Value) ssa.Value {
 			} else {
 				return v
 			}
+		case *ssa.Phi:
+			if r := ResultTemp(x); r != nil {
+				v = r
+			} else {
+				return v
+			}
 		default:
 			return v
 		}
 	}
+}
+
+// ResultTemp looks through the result temporaries that the source-level expansion of a helper
+// introduces (internal/load/reinline.go): `_irN_M` is assigned at each of the helper's returns; on
+// its error/not-found returns it gets a zero constant. When all other assignments give the same
+// value the temporary stands for that value wherever the zero case has been excluded. Returns nil
+// for any other phi.
+func ResultTemp(p *ssa.Phi) ssa.Value {
+	if !strings.HasPrefix(p.Comment, "_ir") {
+		return nil
+	}
+	var only ssa.Value
+	for _, e := range p.Edges {
+		if _, isC := e.(*ssa.Const); isC {
+			continue
+		}
+		if e == ssa.Value(p) {
+			continue
+		}
+		if only != nil && only != e {
+			return nil
+		}
+		only = e
+	}
+	return only
 }
 
 // FieldOfAddr returns the struct field addressed by a FieldAddr/Field value and its base.
